@@ -1299,8 +1299,13 @@ pub fn gen_wide_case(r: &mut Prng, p: &Profile) -> Case {
             default: if is_in { Some(0) } else { None },
         });
     }
+    // the last signal is an output that the program reads: read outputs beyond index 63 must be looked after too
+    let last = n - 1;
+    sigs[last].dir = Dir::Out;
+    sigs[last].default = None;
+    let read = sigs[last].name.clone();
     let header: Vec<String> = sigs.iter().map(|s| s.name.clone()).collect();
-    let mut stmts = vec![];
+    let mut stmts = vec![GStmt::Let("rd".into(), GExpr::Var(read.clone()))];
     // literals are non-negative: values with bit 63 set are written as `~k`
     let val = |v: i64| if v >= 0 { GExpr::Num(v) } else { GExpr::Un("bnot", Box::new(GExpr::Num(!v))) };
     let vals = [i64::MIN, -1, i64::MIN | 1, i64::MAX, 1i64 << 62, 0x5555_5555_5555_5555, r.next_u64() as i64];
@@ -1318,6 +1323,11 @@ pub fn gen_wide_case(r: &mut Prng, p: &Profile) -> Case {
         stmts.push(GStmt::Row(row));
     }
     let mut layout: Vec<SigSpec> = sigs.iter().filter(|s| s.is_output()).cloned().collect();
+    // now and then the driver does not supply the output that is read (the constructor must fail, naming it)
+    let drop_read = r.chance(1, 3);
+    if drop_read {
+        layout.retain(|s| s.name != read);
+    }
     r.shuffle(&mut layout);
     let style_seed = r.next_u64();
     Case {
@@ -1331,9 +1341,9 @@ pub fn gen_wide_case(r: &mut Prng, p: &Profile) -> Case {
         fault: None,
         rng_seed: r.next_u64(),
         p_zx: 0,
-        read_names: vec![],
+        read_names: vec![read],
         cap: 400,
-        tags: vec!["wide"],
+        tags: if drop_read { vec!["wide", "missing-read"] } else { vec!["wide"] },
     }
 }
 
